@@ -9,7 +9,7 @@
    order in which the pending jobs of any number of open brackets return and every subset of
    failing jobs (failure = the slot receives NaN). *)
 From Verif Require Import model.Base model.SyncHB proofs.SyncHBProofs.
-From Coq Require Import Permutation.
+From Coq Require Import Permutation Sorting.Sorted.
 
 (* get_top_list, for every mode, every rung (any metrics, ties, any subset of failed = NaN
    entries) and every size of the next rung: [top] has exactly [new_len] entries, [top] and
@@ -279,6 +279,103 @@ Theorem c05_dehb_parent_slot_example :
     trial_id_from_parent_slot (d_mgr st) bid (level s) (slot_index s) = Ok (Some 6%Z).
 Proof. exact dehb_parent_slot_example. Qed.
 Print Assumptions c05_dehb_parent_slot_example.
+
+(* ---- get_top_list in order (both modes, NaN = failed entries; no hypothesis on the trial ids) ----
+   Enough valid entries: the top list is the first new_len entries of [srt], the valid entries sorted by
+   metric (best first for the mode; entries with the same metric keep their rung order: [srt] restricted
+   to any one metric value is the rung restricted to it), and contains no failed entry.
+   Fewer valid entries than slots: ALL valid entries (kept in rung order by the code) and, behind them,
+   the first failed entries in rung order as padding. *)
+Theorem c05_top_list_order :
+  forall m rung new_len top rest,
+  get_top_list m rung new_len = (top, rest) -> (new_len <= length rung)%nat ->
+  exists srt,
+    Permutation srt (valid_entries rung) /\
+    Sorted.StronglySorted (fun a b => better_eq m (snd a) (snd b) = true) srt /\
+    (forall z, filter (same_key z) srt = filter (same_key z) (valid_entries rung)) /\
+    length top = new_len /\
+    (((new_len <= length (valid_entries rung))%nat /\ top = map fst (firstn new_len srt)) \/
+     ((length (valid_entries rung) < new_len)%nat /\
+      top = map fst (valid_entries rung) ++ firstn (new_len - length (valid_entries rung)) (invalid_ids rung))).
+Proof. exact get_top_list_order. Qed.
+Print Assumptions c05_top_list_order.
+
+Example c05_top_list_order_example :
+  (* mode max, a tie (trials 3 and 4) and two failed entries: ties in rung order, failed ones never before valid ones *)
+  let rung := [(Some 1%Z, Val 1); (Some 2%Z, NaN); (Some 3%Z, Val 2); (Some 5%Z, NaN); (Some 4%Z, Val 2)] in
+  fst (get_top_list Max rung 2) = [Some 3%Z; Some 4%Z] /\
+  fst (get_top_list Min rung 2) = [Some 1%Z; Some 3%Z] /\
+  fst (get_top_list Max rung 4) = [Some 1%Z; Some 3%Z; Some 4%Z; Some 2%Z] /\
+  valid_entries rung = [(Some 1%Z, 1); (Some 3%Z, 2); (Some 4%Z, 2)] /\ invalid_ids rung = [Some 2%Z; Some 5%Z].
+Proof. vm_compute. repeat split. Qed.
+
+(* ---- a rung completes exactly when its last slot receives a value (reported or failed = NaN) ----
+   For every bracket and every accepted result: the bracket moves on to the next rung iff all slots of
+   the rung were handed out and every OTHER slot already had a value; otherwise it stays in the rung, with
+   the slot filled.  (In reachable states the rung being filled always has a slot without value:
+   c05_current_rung_shape; completed rungs have none: c05_rung_filled_by_distinct.) *)
+Theorem c05_rung_completes_iff_last_value :
+  forall b r sl lv b' out,
+  current_rung_and_level b = Ok (sl, lv) -> bracket_on_result b r = Ok (b', out) ->
+  (current_rung b' = S (current_rung b) <->
+     ((length sl <= first_free_pos b)%nat /\
+      forall pos s, pos <> slot_index r -> nth_error sl pos = Some s -> snd s <> None)) /\
+  (current_rung b' = current_rung b \/ current_rung b' = S (current_rung b)) /\
+  (current_rung b' = current_rung b ->
+     first_free_pos b' = first_free_pos b /\
+     exists v, metric_val r = Some v /\
+       current_rung_and_level b' = Ok (upd sl (slot_index r) (trial_id r, Some v), lv)).
+Proof. exact rung_completes_iff_last_value. Qed.
+Print Assumptions c05_rung_completes_iff_last_value.
+
+Theorem c05_dehb_rung_completes_iff_last_value :
+  forall b r sl lv b' out,
+  current_rung_and_level b = Ok (sl, lv) -> dehb_bracket_on_result b r = Ok (b', out) ->
+  (current_rung b' = S (current_rung b) <->
+     ((length sl <= first_free_pos b)%nat /\
+      forall pos s, pos <> slot_index r -> nth_error sl pos = Some s -> snd s <> None)) /\
+  (current_rung b' = current_rung b \/ current_rung b' = S (current_rung b)).
+Proof. exact dehb_rung_completes_iff_last_value. Qed.
+Print Assumptions c05_dehb_rung_completes_iff_last_value.
+
+Example c05_rung_completes_example :
+  (* rung of 2 slots, both handed out: the first value (a failure) does not complete it, the second does *)
+  let b0 := mkB Min 2 0 [Filled [(None, None); (None, None)] 1; Future 1 3] in
+  exists b1 b2 rem,
+    bracket_on_result b0 (mkSIR 0 1 1 (Some 7%Z) (Some NaN)) = Ok (b1, None) /\ current_rung b1 = 0%nat /\
+    bracket_on_result b1 (mkSIR 0 1 0 (Some 8%Z) (Some (Val 1))) = Ok (b2, Some rem) /\ current_rung b2 = 1%nat /\
+    current_rung_and_level b2 = Ok ([(Some 8%Z, None)], 3%Z) /\ rem = [Some 7%Z].
+Proof. vm_compute. repeat eexists. Qed.
+
+(* ---- DEHB: the cache of top_of_previous_rung (keyed by (bracket, rung index)) is transparent ----
+   For EVERY sequence of requests, results, failures and top-list queries with arbitrary arguments
+   (also failing ones), the cached lookup answers what the uncached computation answers now, and
+   the queries never change the brackets. *)
+Theorem c05_dehb_cache_transparent :
+  forall first md nb ops st c bid pos,
+  dcrun_from first md nb ops = Ok (st, c) ->
+  snd (top_of_previous_rung_cached (d_mgr st) c bid pos) = top_of_previous_rung (d_mgr st) bid pos.
+Proof. exact dehb_cache_transparent. Qed.
+Print Assumptions c05_dehb_cache_transparent.
+
+Theorem c05_dehb_queries_do_not_change_manager :
+  forall first md nb ops st c,
+  dcrun_from first md nb ops = Ok (st, c) -> drun_from first md nb (strip_queries ops) = Ok st.
+Proof. exact dcrun_strip. Qed.
+Print Assumptions c05_dehb_queries_do_not_change_manager.
+
+Example c05_dehb_cache_example :
+  (* the list cached for rung 1 of bracket 0 is not used for rung 2 of the same bracket *)
+  let first := [(3%nat, 1%Z); (2%nat, 3%Z); (1%nat, 9%Z)] in
+  let fill3 := [DCOp DNext; DCOp DNext; DCOp DNext; DCOp (DRet 0 1 (Val 3)); DCOp (DRet 0 2 (Val 1)); DCOp (DRet 0 3 (Val 2))] in
+  let fill2 := [DCOp DNext; DCOp DNext; DCOp (DRet 0 4 (Val 5)); DCOp (DRet 0 5 (Val 4))] in
+  match dcrun_from first Min None (fill3 ++ [DCTop 0 0] ++ fill2 ++ [DCTop 0 0]) with
+  | Ok (st, c) => length c = 2%nat /\
+                  snd (top_of_previous_rung_cached (d_mgr st) c 0 0) = Ok (Some 5%Z) /\
+                  cache_get (0, 1)%nat c = Some [Some 2%Z; Some 3%Z]
+  | Error _ => False
+  end.
+Proof. vm_compute. repeat split. Qed.
 
 (* non-vacuity: a rung system accepted by the constructor; three workers, one job fails, the
    first rung completes with a tie, the best two (stable order) are promoted, a second bracket
